@@ -199,3 +199,85 @@ func ZZ_C08_Fail() {
 		}
 	}
 }
+
+// Crash residue as a pre-state: an operation is cut short at any mutating step, the
+// directory is reopened, and the replica keeps working on top of whatever the dead
+// process left behind (temp files, links, a half-made head): further writes and
+// snapshots - including a retry of the interrupted snapshot under the same name - and a
+// final clean reopen must still show a well-formed chain and every acknowledged block.
+func ZZ_C08_CrashResidue() {
+	fs := zzInstallFS()
+	r := zzPreState(fs, 1)
+	model := make([]byte, zzBlocks)
+	write := func(rep *Replica, blk int, tag byte) {
+		buf := make([]byte, 4096)
+		buf[0], buf[4095] = tag, tag
+		_, werr := rep.WriteAt(buf, int64(blk)*4096)
+		zzAssert(werr == nil, "C08.residue.write-failed")
+		model[blk] = tag
+	}
+	write(r, 0, 'A')
+	total := zzParam("MAXSTEPS", 40)
+	crashAt := zzConcretize(zzChoice("crashAt", total))
+	fs.MutSteps = 0
+	fs.CrashAt = crashAt
+	op := 0
+	if zzNondetBool("interrupted-revert") {
+		op = 2
+	}
+	zzTrapFatal()
+	zzTry(func() { zzRunC08Op(r, op, 1) })
+	if !fs.Dead {
+		zzAssume(false) // crash index beyond the operation
+	}
+	fs.Revive()
+	r2, err := zzOpenReplica()
+	zzAssert(err == nil && r2 != nil, "C08.residue.reopen-after-crash-failed")
+	if r2 == nil {
+		return
+	}
+	r2.mode = types.RW
+	if op == 2 {
+		// a completed revert discards the head's data by design
+		ch, _ := r2.Chain()
+		if len(ch) > 0 && ch[0] != "volume-head-001.img" {
+			model[0] = 0
+		}
+	}
+	tag := byte('B')
+	steps := zzParam("K", 3)
+	for i := 0; i < steps; i++ {
+		switch zzConcretize(zzChoice("step", 3)) {
+		case 0:
+			write(r2, zzConcretize(zzChoice("blk", 2)), tag)
+			tag++
+		case 1:
+			r2.Snapshot("y", zzNondetBool("user.y"), "t") // may be refused (name in use)
+		default:
+			// the interrupted snapshot is retried under its name; a first refusal that
+			// cleans up the leftovers is acceptable, so it is tried twice
+			if r2.Snapshot("new", zzNondetBool("user.new"), "t") != nil {
+				r2.Snapshot("new", false, "t")
+			}
+			zzReach("C08.residue.retried")
+		}
+		zzWellFormed("C08.residue.live", r2)
+	}
+	write(r2, 1, 'Z')
+	zzAssume(r2.Close() == nil)
+	fs.Revive()
+	r3, oerr := zzOpenReplica()
+	zzAssert(oerr == nil && r3 != nil, "C08.residue.final-reopen-failed")
+	if r3 == nil {
+		return
+	}
+	zzWellFormed("C08.residue.reopened", r3)
+	zzAssume(PreloadLunMap(&r3.volume) == nil)
+	for blk := 0; blk < 2; blk++ {
+		rb := make([]byte, 4096)
+		_, rerr := r3.ReadAt(rb, int64(blk)*4096)
+		zzAssert(rerr == nil, "C08.residue.read-failed")
+		zzAssert(rb[0] == model[blk] && rb[4095] == model[blk], "C08.residue.acknowledged-data-lost-after-reopen")
+	}
+	zzReach("C08.residue.done")
+}
